@@ -1,7 +1,334 @@
-"""Tie B for C13 (placeholder until the property's translator is written): writes an empty
-coq/theories/Gen/GenC13.v so that the project builds."""
+"""Tie B for C13: regenerate coq/theories/Gen/GenC13.v from the CURRENT source of
+
+  pypyr/cache/cache.py        Cache.get, Cache.clear   -> control-flow tables gen_get_code /
+                                                          gen_clear_code over the `instr` set
+                                                          of Model/Cache.v (machine `nstep`)
+  pypyr/cache/loadercache.py  Loader.get_pipeline      -> gen_pipeline_key (the key expression)
+
+Proofs/GenC13Proofs.v proves that `nstep` on the generated tables is the hand-written `step`
+(for all states and schedules) and gen_pipeline_key = pipeline_key.
+
+How a function body becomes a table.  Every statement at which the thread touches shared
+state (config.no_cache, the lock, the dict, the creator) becomes one node; successors are
+explicit.  `with self._lock: B` = IAcquire; B; IRelease, plus a second IRelease on B's
+exceptional exit that leads to IRaise (what `with` does); a `return` inside the block goes
+through an IRelease first.  Nodes are hash-consed (same instruction + same successors = same
+node) and numbered in depth-first order from the entry, so the table depends on the control
+flow, not on the layout of the text: renaming the local, `if k in c: A else: B` vs
+`if k not in c: B else: A`, fall-through vs early `return` inside the `with` all give the
+same table.
+
+Accepted subset (anything else => the definition is emitted under the name
+<name>_UNTRANSLATED, so every lemma about <name> stops compiling):
+  if config.no_cache: / if not config.no_cache:         IIfNoCache
+  with self._lock:                                      IAcquire .. IRelease
+  if key in self._cache: / if key not in self._cache:   IIfContains
+  x = self._cache[key]                                  ILoad
+  x = creator()                                         ICallEnter; ICallExit
+  self._cache[key] = x                                  IStore
+  self._cache.clear()                                   IClearAll
+  return x / return creator() / return self._cache[key] IReturnObj (after the above)
+  end of body                                           IReturnNone
+  (`key`, `creator` = the function's 2nd and 3rd parameter; x = one local name)
+Dropped: docstrings, `logger.<level>(...)` calls (assumed effect-free), `pass`.
+Assumed: the names mean what they say (self._lock is the lock made in __init__, self._cache
+the dict, config the pypyr config object); evaluating `config.no_cache`, `key in d`, `d[key]`,
+`d[key] = x`, `d.clear()` is one atomic step each; a creator call is two (enter, exit).
+Key expression subset: `v = (A, B)` / direct argument, A, B ::= name | None |
+f'{name}' | X if name else Y, with `parent` an optional string (its str(), None when the
+argument is None) whose truthiness is non-emptiness.
+The file is rewritten only when its text changes.
+"""
+import ast
+import os
 from pathlib import Path
+
+REPO = Path(os.environ.get('VERIF_REPO', '/repo'))
 OUT = Path(__file__).resolve().parent.parent / 'coq' / 'theories' / 'Gen' / 'GenC13.v'
-TEXT = '(* Gen/GenC13.v - placeholder *)\n'
-if not OUT.exists() or OUT.read_text() != TEXT:
-    OUT.write_text(TEXT)
+
+
+class Untranslatable(Exception):
+    pass
+
+
+def find(tree, qual):
+    body, node = tree.body, None
+    for p in qual.split('.'):
+        node = next((n for n in body if isinstance(n, (ast.FunctionDef, ast.ClassDef)) and n.name == p), None)
+        if node is None:
+            raise Untranslatable(f'{qual} not found')
+        body = node.body
+    return node
+
+
+def strip(body):
+    out = []
+    for st in body:
+        if isinstance(st, ast.Expr) and isinstance(st.value, ast.Constant) and isinstance(st.value.value, str):
+            continue
+        if isinstance(st, ast.Expr) and isinstance(st.value, ast.Call) and isinstance(st.value.func, ast.Attribute) \
+                and isinstance(st.value.func.value, ast.Name) and st.value.func.value.id == 'logger':
+            continue
+        if isinstance(st, ast.Pass):
+            continue
+        out.append(st)
+    return out
+
+
+def is_self_attr(e, attr):
+    return isinstance(e, ast.Attribute) and e.attr == attr and isinstance(e.value, ast.Name) and e.value.id == 'self'
+
+
+class Cfg:
+    """hash-consed nodes: (kind, succ ids...)"""
+
+    def __init__(self):
+        self.ids = {}
+        self.nodes = []
+
+    def mk(self, kind, *succ):
+        k = (kind,) + succ
+        if k not in self.ids:
+            self.ids[k] = len(self.nodes)
+            self.nodes.append(k)
+        return self.ids[k]
+
+    def table(self, entry):
+        order, seen = [], {}
+
+        def visit(n):
+            if n in seen:
+                return
+            seen[n] = len(order)
+            order.append(n)
+            for s in self.nodes[n][1:]:
+                visit(s)
+        visit(entry)
+        rows = []
+        for n in order:
+            kind, *succ = self.nodes[n]
+            rows.append(kind + ''.join(f' {seen[s]}' for s in succ))
+        return rows
+
+
+class FnCompiler:
+    def __init__(self, fn):
+        self.fn = fn
+        args = [a.arg for a in fn.args.args]
+        if fn.args.vararg or fn.args.kwarg or fn.args.kwonlyargs or fn.args.defaults:
+            raise Untranslatable('unexpected signature')
+        if args[:1] != ['self'] or len(args) not in (1, 3):
+            raise Untranslatable(f'unexpected parameters {args}')
+        self.key = args[1] if len(args) == 3 else None
+        self.creator = args[2] if len(args) == 3 else None
+        self.local = None
+        self.g = Cfg()
+        self.raise_node = self.g.mk('IRaise')
+
+    # -- expression recognisers
+    def is_cache(self, e):
+        return is_self_attr(e, '_cache')
+
+    def is_key(self, e):
+        return self.key is not None and isinstance(e, ast.Name) and e.id == self.key
+
+    def is_local(self, e, bind=False):
+        if not isinstance(e, ast.Name) or e.id in ('self', self.key, self.creator):
+            return False
+        if self.local is None and bind:
+            self.local = e.id
+        return e.id == self.local
+
+    def is_creator_call(self, e):
+        return (self.creator is not None and isinstance(e, ast.Call) and isinstance(e.func, ast.Name)
+                and e.func.id == self.creator and not e.args and not e.keywords)
+
+    def is_cache_get(self, e):
+        return (isinstance(e, ast.Subscript) and self.is_cache(e.value) and self.is_key(e.slice)
+                and isinstance(e.ctx, ast.Load))
+
+    def nocache_test(self, e):
+        """-> True (plain) / False (negated) / None"""
+        def plain(x):
+            return (isinstance(x, ast.Attribute) and x.attr == 'no_cache' and isinstance(x.value, ast.Name)
+                    and x.value.id == 'config')
+        if plain(e):
+            return True
+        if isinstance(e, ast.UnaryOp) and isinstance(e.op, ast.Not) and plain(e.operand):
+            return False
+        return None
+
+    def contains_test(self, e):
+        if isinstance(e, ast.UnaryOp) and isinstance(e.op, ast.Not):
+            r = self.contains_test(e.operand)
+            return None if r is None else not r
+        if isinstance(e, ast.Compare) and len(e.ops) == 1 and self.is_key(e.left) \
+                and self.is_cache(e.comparators[0]):
+            if isinstance(e.ops[0], ast.In):
+                return True
+            if isinstance(e.ops[0], ast.NotIn):
+                return False
+        return None
+
+    # -- statements, compiled backwards: block(stmts, k, exc, unwind) -> entry node
+    # k: node to continue at; exc: node an exception goes to; unwind: number of enclosing
+    # `with self._lock` blocks a `return` has to release
+    def ret(self, unwind):
+        n = self.g.mk('IReturnObj')
+        for _ in range(unwind):
+            n = self.g.mk('IRelease', n)
+        return n
+
+    def block(self, stmts, k, exc, unwind):
+        stmts = strip(stmts)
+        if not stmts:
+            return k
+        st, rest = stmts[0], stmts[1:]
+        if isinstance(st, ast.Return):
+            if rest:
+                raise Untranslatable('code after return')
+            v = st.value
+            if v is not None and self.is_creator_call(v):
+                return self.g.mk('ICallEnter', self.g.mk('ICallExit', self.ret(unwind), exc))
+            if v is not None and self.is_cache_get(v):
+                return self.g.mk('ILoad', self.ret(unwind), exc)
+            if v is not None and self.is_local(v):
+                return self.ret(unwind)
+            raise Untranslatable('return of something else: ' + ast.unparse(st))
+        kk = self.block(rest, k, exc, unwind)
+        if isinstance(st, ast.If):
+            a = self.block(st.body, kk, exc, unwind)
+            b = self.block(st.orelse, kk, exc, unwind)
+            t = self.nocache_test(st.test)
+            if t is not None:
+                return self.g.mk('IIfNoCache', *((a, b) if t else (b, a)))
+            t = self.contains_test(st.test)
+            if t is not None:
+                return self.g.mk('IIfContains', *((a, b) if t else (b, a)))
+            raise Untranslatable('unknown test: ' + ast.unparse(st.test))
+        if isinstance(st, ast.With):
+            if len(st.items) != 1 or st.items[0].optional_vars is not None \
+                    or not is_self_attr(st.items[0].context_expr, '_lock'):
+                raise Untranslatable('with on something else: ' + ast.unparse(st.items[0]))
+            rel_ok = self.g.mk('IRelease', kk)
+            rel_exc = self.g.mk('IRelease', exc)
+            return self.g.mk('IAcquire', self.block(st.body, rel_ok, rel_exc, unwind + 1))
+        if isinstance(st, ast.Assign) and len(st.targets) == 1:
+            tg, v = st.targets[0], st.value
+            if isinstance(tg, ast.Subscript) and self.is_cache(tg.value) and self.is_key(tg.slice) \
+                    and self.is_local(v):
+                return self.g.mk('IStore', kk)
+            if self.is_creator_call(v) and self.is_local(tg, bind=True):
+                return self.g.mk('ICallEnter', self.g.mk('ICallExit', kk, exc))
+            if self.is_cache_get(v) and self.is_local(tg, bind=True):
+                return self.g.mk('ILoad', kk, exc)
+            raise Untranslatable('assignment: ' + ast.unparse(st))
+        if isinstance(st, ast.Expr) and isinstance(st.value, ast.Call):
+            c = st.value
+            if isinstance(c.func, ast.Attribute) and c.func.attr == 'clear' and self.is_cache(c.func.value) \
+                    and not c.args and not c.keywords:
+                return self.g.mk('IClearAll', kk)
+        raise Untranslatable('statement: ' + ast.unparse(st).splitlines()[0])
+
+    def compile(self):
+        # the local must be bound before it is used: find its name first (first assignment target)
+        for n in ast.walk(self.fn):
+            if isinstance(n, ast.Assign) and len(n.targets) == 1 and isinstance(n.targets[0], ast.Name):
+                self.local = n.targets[0].id
+                break
+        end = self.g.mk('IReturnNone')
+        entry = self.block(self.fn.body, end, self.raise_node, 0)
+        return self.g.table(entry)
+
+
+def gen_table(path, qual, name):
+    try:
+        tree = ast.parse((REPO / path).read_text())
+        rows = FnCompiler(find(tree, qual)).compile()
+        body = ';\n   '.join(rows)
+        return (f'(* source: {path} :: {qual} *)\n'
+                f'Definition {name} : list instr :=\n  [{body}].\n')
+    except (Untranslatable, OSError, SyntaxError) as e:
+        return (f'(* source: {path} :: {qual} -- NOT TRANSLATED: {str(e)[:200].replace("*)", "* )")} *)\n'
+                f'Definition {name}_UNTRANSLATED : list instr := [].\n')
+
+
+# ---------------------------------------------------------------- the pipeline key expression
+
+def key_expr(e, env):
+    """-> (coq term, type) with types 'ostr' (option string) | 'str'"""
+    if isinstance(e, ast.Name) and e.id in env:
+        return env[e.id]
+    if isinstance(e, ast.Constant) and e.value is None:
+        return ('None', 'ostr')
+    if isinstance(e, ast.JoinedStr) and len(e.values) == 1 and isinstance(e.values[0], ast.FormattedValue):
+        fv = e.values[0]
+        if fv.conversion == -1 and fv.format_spec is None and isinstance(fv.value, ast.Name) \
+                and env.get(fv.value.id, (None, None))[1] == 'ostr':
+            # str() of the parent; only meaningful where the parent is not None -- the
+            # enclosing conditional guarantees it (checked below)
+            return (env[fv.value.id][0], 'ostr-guarded:' + fv.value.id)
+    if isinstance(e, ast.IfExp) and isinstance(e.test, ast.Name) and env.get(e.test.id, (None, None))[1] == 'ostr':
+        a, ta = key_expr(e.body, env)
+        b, tb = key_expr(e.orelse, env)
+        if ta == 'ostr-guarded:' + e.test.id:
+            ta = 'ostr'
+        if ta == tb == 'ostr':
+            return (f'(if truthy {env[e.test.id][0]} then {a} else {b})', 'ostr')
+    raise Untranslatable('key expression: ' + ast.unparse(e))
+
+
+def gen_key(path, qual, name):
+    try:
+        fn = find(ast.parse((REPO / path).read_text()), qual)
+        args = [a.arg for a in fn.args.args]
+        if args != ['self', 'name', 'parent']:
+            raise Untranslatable(f'unexpected parameters {args}')
+        env = {'parent': ('parent', 'ostr'), 'name': ('name', 'str')}
+        body = strip(fn.body)
+        keyvar = None
+        if len(body) == 2 and isinstance(body[0], ast.Assign) and len(body[0].targets) == 1 \
+                and isinstance(body[0].targets[0], ast.Name):
+            keyvar, keyval = body[0].targets[0].id, body[0].value
+            body = body[1:]
+        if len(body) != 1 or not isinstance(body[0], ast.Return) or not isinstance(body[0].value, ast.Call):
+            raise Untranslatable('unexpected shape of get_pipeline')
+        call = body[0].value
+        f = call.func
+        if not (isinstance(f, ast.Attribute) and f.attr == 'get' and is_self_attr(f.value, '_pipeline_cache')
+                and len(call.args) == 2 and not call.keywords and isinstance(call.args[1], ast.Lambda)):
+            raise Untranslatable('the pipeline cache is not consulted as expected')
+        lam = call.args[1].body
+        if not (isinstance(lam, ast.Call) and is_self_attr(lam.func, '_load_pipeline')
+                and [ast.unparse(a) for a in lam.args] == ['name', 'parent'] and not lam.keywords):
+            raise Untranslatable('creator is not self._load_pipeline(name, parent)')
+        k = call.args[0]
+        if keyvar is not None and isinstance(k, ast.Name) and k.id == keyvar:
+            k = keyval
+        if not (isinstance(k, ast.Tuple) and len(k.elts) == 2):
+            raise Untranslatable('key is not a pair: ' + ast.unparse(k))
+        a, ta = key_expr(k.elts[0], env)
+        b, tb = key_expr(k.elts[1], env)
+        if (ta, tb) != ('ostr', 'str'):
+            raise Untranslatable(f'key components have types {ta}, {tb}')
+        return (f'(* source: {path} :: {qual} — the key handed to self._pipeline_cache.get *)\n'
+                f'Definition {name} (parent : option string) (name : string) : key :=\n  ({a}, {b}).\n')
+    except (Untranslatable, OSError, SyntaxError) as e:
+        return (f'(* source: {path} :: {qual} -- NOT TRANSLATED: {str(e)[:200].replace("*)", "* )")} *)\n'
+                f'Definition {name}_UNTRANSLATED : unit := tt.\n')
+
+
+def main():
+    text = ('(** Gen/GenC13.v — GENERATED by tools/py2coq_c13.py from the current source under the\n'
+            '    repository; do not edit.  See the translator for the (fail-closed) subset. *)\n'
+            'From PV Require Import Cache.\n'
+            'Open Scope string_scope.\n\n')
+    text += gen_table('pypyr/cache/cache.py', 'Cache.get', 'gen_get_code') + '\n'
+    text += gen_table('pypyr/cache/cache.py', 'Cache.clear', 'gen_clear_code') + '\n'
+    text += gen_key('pypyr/cache/loadercache.py', 'Loader.get_pipeline', 'gen_pipeline_key')
+    if not OUT.exists() or OUT.read_text() != text:
+        OUT.write_text(text)
+
+
+if __name__ == '__main__':
+    main()
